@@ -60,6 +60,9 @@ Conforms(a, v) ==
     [] a.k = "tuple"   -> v.k = "tuple" /\ Len(v.xs) = Len(a.xs) /\ \A i \in DOMAIN v.xs : Conforms(a.xs[i], v.xs[i])
     [] a.k = "union"   -> \E i \in DOMAIN a.xs : Conforms(a.xs[i], v)
     [] a.k = "alias"   -> Conforms(a.xs[1], v)
+    \* parametrised type aliases unfold with their argument: haiway.frozenlist[x] = tuple[x, ...];  Pair[x] = tuple[x, x]
+    [] a.k = "flist"   -> Conforms([k |-> "vtuple", xs |-> a.xs, vs |-> <<>>], v)
+    [] a.k = "pair"    -> Conforms([k |-> "tuple", xs |-> <<a.xs[1], a.xs[1]>>, vs |-> <<>>], v)
     [] OTHER -> FALSE
 
 (* where the documentation / typing rules and the library's practice may legitimately differ:
@@ -82,6 +85,8 @@ Contested(a, v) ==
                          Contested(a.xs[1], v.xs[i].xs[1]) \/ Contested(a.xs[2], v.xs[i].xs[2])
     [] a.k = "union" -> \E i \in DOMAIN a.xs : Contested(a.xs[i], v)
     [] a.k = "alias" -> Contested(a.xs[1], v)
+    [] a.k = "flist" -> Contested([k |-> "vtuple", xs |-> a.xs, vs |-> <<>>], v)
+    [] a.k = "pair"  -> Contested([k |-> "tuple", xs |-> <<a.xs[1], a.xs[1]>>, vs |-> <<>>], v)
     [] OTHER -> FALSE
 
 (* --------------------------- stored normal form --------------------------- *)
@@ -99,6 +104,8 @@ Norm(a, v) ==
     [] a.k = "union" /\ (\E i \in DOMAIN a.xs : Conforms(a.xs[i], v) \/ Contested(a.xs[i], v)) ->
          Norm(a.xs[IF Bug = "union_last" THEN Len(a.xs) ELSE FirstAlt(a, v)], v)
     [] a.k = "alias" -> Norm(a.xs[1], v)
+    [] a.k = "flist" -> Norm([k |-> "vtuple", xs |-> a.xs, vs |-> <<>>], v)
+    [] a.k = "pair"  -> Norm([k |-> "tuple", xs |-> <<a.xs[1], a.xs[1]>>, vs |-> <<>>], v)
     [] OTHER -> v
 
 (* --------------------------- bounded term sets --------------------------- *)
@@ -124,7 +131,7 @@ AnnLeaf == {A("none"), A("bool"), A("int"), A("float"), A("str"), A("bytes"), A(
             A("state"), [k |-> "lit", xs |-> <<>>, vs |-> <<Int1, StrA>>], A("callable"), A("type")}
             \cup {A(k) : k \in Plain}
 Small == {A("int"), A("str"), A("none"), A("bool")}
-AnnCont == {A1(k, x) : k \in {"seq", "set", "fset", "vtuple", "alias"}, x \in Small}
+AnnCont == {A1(k, x) : k \in {"seq", "set", "fset", "vtuple", "alias", "flist", "pair"}, x \in Small}
              \cup {A1("tuple", x) : x \in Small} \cup {A2("tuple", x, y) : x \in Small, y \in Small}
              \cup {A2("map", k, x) : k \in {A("str"), A("int")}, x \in Small}
              \cup {A2("union", x, y) : x \in Small \cup {A("missing")}, y \in Small \cup {A("float")}}
